@@ -11,7 +11,7 @@ open BfeVerif.Proto
 /-! ### rendering (as `render` of the harness) -/
 
 def Out.id : Out → Nat
-  | .rst id _ | .wu id _ | .reply id _ | .data id _ _ => id
+  | .rst id _ | .wu id _ | .reply id _ | .data id _ _ | .read id _ => id
   | .goaway .. | .ping _ => 0
 
 def Out.str : Out → String
@@ -21,6 +21,7 @@ def Out.str : Out → String
   | .wu a b => s!"wu({a},{b})"
   | .reply a f => s!"reply({a},{if f then 1 else 0})"
   | .data a l f => s!"data({a},{l},{if f then 1 else 0})"
+  | .read a n => s!"read({a},{n})"
 
 /-- merge the WINDOW_UPDATEs of one stream id into the first one -/
 def mergeWu : List Out → List Out → List Out
@@ -37,8 +38,14 @@ def insertById (o : Out) : List Out → List Out
   | [] => [o]
   | x :: t => if o.id < x.id then o :: x :: t else x :: insertById o t
 
+/-- the bytes read by a handler during the event, summed: last token of the stream's group -/
+def mergeRead (os : List Out) : List Out :=
+  let ids := (os.filterMap fun o => match o with | .read i _ => some i | _ => none).eraseDups
+  let frames := os.filter fun o => match o with | .read .. => false | _ => true
+  frames ++ ids.map fun i => .read i (os.foldl (fun a o => match o with | .read j n => if j == i then a + n else a | _ => a) 0)
+
 def renderEvent (os : List Out) : String :=
-  let sorted := (mergeWu os []).foldl (fun acc o => insertById o acc) []
+  let sorted := (mergeWu (mergeRead os) []).foldl (fun acc o => insertById o acc) []
   "[" ++ ",".intercalate (sorted.map Out.str) ++ "]"
 
 def renderRun (r : List (List Out) × Status × State) : String :=
@@ -64,6 +71,7 @@ def parseEv (t : String) : Option Ev :=
   | "r", some [a, b] => if b ≤ 131072 then some (.hcmd a (.read b)) else none
   | "w", some [a, b] => if b ≤ 131072 then some (.hcmd a (.write b)) else none
   | "f", some [a] => some (.hcmd a .finish)
+  | "G", some [_] => some .graceful
   | _, _ => none
 
 /-! ### the monitor: the property as seen by the client -/
@@ -78,6 +86,7 @@ structure MSt where
   outWin : Int             -- what the client still grants the server on this stream
   decl : Option Nat := none  -- Content-Length announced for the request body
   got : Nat := 0           -- body bytes sent so far
+  unread : Int := 0        -- body bytes the server accepted and its handler has not consumed yet
   deriving Repr
 
 structure Mon where
@@ -86,12 +95,13 @@ structure Mon where
   connIn : Int := 65536
   connOut : Int := 65536
   iws : Int := 65536
+  goaway : Bool := false   -- the server announced its (graceful) shutdown: it ignores new streams, sends no 2nd GOAWAY
   void : Bool := false     -- the script left the protocol's domain (initial window >= 2^31): nothing more is demanded
   deriving Repr
 
 inductive Tok
   | rst (id c : Nat) | goaway (c : Nat) | ping (id : Nat) | wu (id n : Nat) | reply (id : Nat) (fin : Bool)
-  | data (id len : Nat) (fin : Bool) | other
+  | data (id len : Nat) (fin : Bool) | read (id n : Nat) | other
   deriving Repr, DecidableEq
 
 def parseTok (s : String) : Tok :=
@@ -105,6 +115,7 @@ def parseTok (s : String) : Tok :=
     | "wu", [some a, some b] => .wu a b
     | "reply", [some a, some b] => .reply a (b != 0)
     | "data", [some a, some b, some c] => .data a b (c != 0)
+    | "read", [some a, some b] => .read a b
     | _, _ => .other
   | _ => .other
 
@@ -128,7 +139,7 @@ def goawayCode (toks : List Tok) : Option Nat :=
 def maxWin : Int := 2147483647
 
 /-- the server's own frames, as the client accounts for them; `Except` = a rule is broken -/
-def monOut (m : Mon) : List Tok → Except String Mon
+def monOutCore (m : Mon) : List Tok → Except String Mon
   | [] => .ok m
   | t :: rest =>
     match t with
@@ -142,19 +153,60 @@ def monOut (m : Mon) : List Tok → Except String Mon
         else
           let m := mUpd { m with connOut := c } id fun x =>
             { x with outWin := o, state := if fin ∧ x.state = .hcr then .closed else x.state }
-          monOut m rest
+          monOutCore m rest
     | .wu id n =>
       if id = 0 then
-        if m.connIn + n > 65536 then .error "over-replenished" else monOut { m with connIn := m.connIn + n } rest
+        if m.connIn + n > 65536 then .error "over-replenished" else monOutCore { m with connIn := m.connIn + n } rest
       else match mFind m id with
-        | none => monOut m rest
+        | none => monOutCore m rest
         | some st =>
           if st.inWin + n > 65536 then .error "over-replenished"
-          else monOut (mUpd m id fun x => { x with inWin := x.inWin + n }) rest
-    | .rst id _ => monOut (mUpd m id fun x => { x with state := .closed }) rest
+          else monOutCore (mUpd m id fun x => { x with inWin := x.inWin + n }) rest
+    | .rst id _ => monOutCore (mUpd m id fun x => { x with state := .closed }) rest
     | .reply id fin =>
-      monOut (mUpd m id fun x => { x with state := if fin ∧ x.state = .hcr then .closed else x.state }) rest
-    | _ => monOut m rest
+      monOutCore (mUpd m id fun x => { x with state := if fin ∧ x.state = .hcr then .closed else x.state }) rest
+    | _ => monOutCore m rest
+
+def sumWu (toks : List Tok) (id : Nat) : Int :=
+  toks.foldl (fun a t => match t with | .wu i n => if i = id then a + (n : Int) else a | _ => a) 0
+
+def readOf (toks : List Tok) (id : Nat) : Int :=
+  toks.foldl (fun a t => match t with | .read i n => if i = id then a + (n : Int) else a | _ => a) 0
+
+/-- the server's frames of one event, plus the REPLENISHMENT rule: every byte a handler consumed (`read` tokens,
+    observed inside the handler) is given back to the connection window, and to the stream window while the client
+    may still send on the stream; unread bytes of a stream that is closed go back to the connection window; nothing
+    else is ever granted — whatever state (GOAWAY …) the connection is in.  `m` = the client's view after its own
+    frame, before the server's reaction; `extraClosed` = streams closed by the client's frame itself. -/
+def monOut (m : Mon) (toks : List Tok) (extraClosed : List Nat := []) : Except String Mon :=
+  let ids := (toks.filterMap fun t => match t with
+    | .read i _ => some i
+    | .wu i _ => if i = 0 then none else some i
+    | _ => none).eraseDups
+  let bad := ids.find? fun id =>
+    let want : Int := match mFind m id with
+      | some st => if st.state = .open then readOf toks id else 0
+      | none => 0
+    sumWu toks id != want
+  match bad with
+  | some id =>
+    let want : Int := match mFind m id with
+      | some st => if st.state = .open then readOf toks id else 0
+      | none => 0
+    .error (if sumWu toks id < want then "window-not-replenished" else "over-replenished")
+  | none =>
+    match monOutCore m toks with
+    | .error e => .error e
+    | .ok m' =>
+      let closedNow := m.streams.filter fun st =>
+        st.state != .closed && (extraClosed.contains st.id ||
+          (match mFind m' st.id with | some x => x.state == .closed | none => false))
+      let totalRead : Int := toks.foldl (fun a t => match t with | .read _ n => a + (n : Int) | _ => a) 0
+      let dropped : Int := closedNow.foldl (fun a st => a + max 0 (st.unread - readOf toks st.id)) 0
+      let back := sumWu toks 0
+      if back < totalRead + dropped then .error "window-not-replenished"
+      else if back > totalRead + dropped then .error "over-replenished"
+      else .ok { m' with streams := m'.streams.map fun x => { x with unread := x.unread - readOf toks x.id } }
 
 /-- what the property demands for one client frame, given the tokens the server answered with -/
 def monEvent (adv : Nat) (m : Mon) (e : Ev) (toks : List Tok) (closed : Bool) : Except String Mon :=
@@ -162,6 +214,7 @@ def monEvent (adv : Nat) (m : Mon) (e : Ev) (toks : List Tok) (closed : Bool) : 
   match e with
   | .syn id fin meth cl =>
     if id = 0 then .ok m
+    else if m.goaway then monOut m toks   -- new streams are ignored after GOAWAY
     else if id % 2 = 0 ∨ id < m.maxSeen then
       if goawayCode toks = some 1 then .ok m else .error "bad-stream-id-accepted"
     else if id = m.maxSeen then
@@ -214,20 +267,22 @@ def monEvent (adv : Nat) (m : Mon) (e : Ev) (toks : List Tok) (closed : Bool) : 
           | some c => if c = 7 then monOut m toks else .error "wrong-reset-code"
         else if short then
           -- END_STREAM before the announced length: the frame itself is within the windows, the request is not
-          let m := mUpd { m with connIn := m.connIn - len } id fun x => { x with inWin := x.inWin - len }
+          let m := mUpd { m with connIn := m.connIn - len } id fun x =>
+            { x with inWin := x.inWin - len, unread := x.unread + len }
           match rstCode toks id with
           | none => .error "content-length-short-accepted"
           | some c => if c = 1 then monOut m toks else .error "wrong-reset-code"
         else if (rstCode toks id).isSome ∧ rstCode toks id ≠ some 5 then .error "data-refused-within-window"
         else
           let m := mUpd { m with connIn := m.connIn - len } id fun x =>
-            { x with inWin := x.inWin - len, got := x.got + len, state := if fin then .hcr else x.state }
+            { x with inWin := x.inWin - len, got := x.got + len, unread := x.unread + len,
+                     state := if fin then .hcr else x.state }
           monOut m toks
   | .wu id delta =>
     let d : Int := (delta % 2147483648 : Nat)
     if id = 0 then
       if m.connOut + d > maxWin then
-        (if goawayCode toks = some 7 then .ok m else .error "window-overflow-accepted")
+        (if goawayCode toks = some 7 ∨ m.goaway then .ok { m with void := m.goaway } else .error "window-overflow-accepted")
       else if (goawayCode toks).isSome then .error "window-update-refused"
       else monOut { m with connOut := m.connOut + d } toks
     else match mFind m id with
@@ -244,28 +299,31 @@ def monEvent (adv : Nat) (m : Mon) (e : Ev) (toks : List Tok) (closed : Bool) : 
     if id = 0 then .ok m else
     match mFind m id with
     | none =>
-      if id > m.maxSeen then (if goawayCode toks = some 1 then .ok m else .error "rst-on-idle-accepted")
+      if id > m.maxSeen then (if goawayCode toks = some 1 ∨ m.goaway then .ok m else .error "rst-on-idle-accepted")
       else monOut m toks
     | some st =>
-      -- bytes the client sent on an open stream and the handler never read are dropped with the stream: they have
-      -- to be given back to the connection window, or the connection's upload capacity shrinks for ever
-      let unread := if st.state = .open then 65536 - st.inWin else 0
-      let back := toks.foldl (fun a t => match t with | .wu 0 n => a + (n : Int) | _ => a) 0
-      if unread > 0 ∧ back < unread then .error "conn-window-not-returned-on-close"
-      else monOut (mUpd m id fun x => { x with state := .closed }) toks
+      -- (unread bytes are dropped with the stream and must go back to the connection window: `monOut`)
+      if st.state = .closed then monOut m toks
+      else match monOut m toks [id] with
+        | .error e => .error e
+        | .ok m' => .ok (mUpd m' id fun x => { x with state := .closed, unread := 0 })
   | .iws val =>
     if val ≥ 2147483648 then .ok { m with void := true }
     else
       let g : Int := (val : Int) - m.iws
-      let m' := { m with iws := val, streams := m.streams.map fun x =>
-                    if x.state = .closed then x else { x with outWin := x.outWin + g } }
-      if m'.streams.any (fun x => x.state ≠ .closed ∧ x.outWin > maxWin) then
-        (if goawayCode toks = some 7 then .ok m' else .error "window-overflow-accepted")
+      let m' : Mon := { m with iws := val, streams := m.streams.map fun (x : MSt) =>
+                    if x.state = MState.closed then x else { x with outWin := x.outWin + g } }
+      if m'.streams.any (fun (x : MSt) => x.state ≠ MState.closed ∧ x.outWin > maxWin) then
+        (if goawayCode toks = some 7 ∨ m.goaway then .ok { m' with void := m.goaway } else .error "window-overflow-accepted")
       else if (goawayCode toks).isSome then .error "settings-refused"
       else monOut m' toks
   | .ping id =>
     if id % 2 = 1 ∧ !toks.contains (.ping id) then .error "ping-not-echoed" else monOut m toks
   | .hcmd _ _ => monOut m toks
+  | .graceful =>
+    if m.goaway then monOut m toks
+    else if goawayCode toks = some 0 then monOut { m with goaway := true } toks
+    else .error "graceful-goaway-missing"
 
 def monitor (adv : Nat) : Mon → List Ev → List String → Option String
   | _, [], _ => none
@@ -296,10 +354,10 @@ def run (op impl : String) : Ans :=
       let kinds := es.map fun e => match e with
         | .syn _ _ 2 _ => "synhead" | .syn _ false _ 1 => "synbadcl" | .syn _ false _ 2 => "synbadcl"
         | .syn _ false _ (_ + 10) => "syncl" | .syn .. => "syn" | .data .. => "data" | .wu .. => "wu" | .rst .. => "rst" | .iws .. => "iws" | .ping .. => "ping"
-        | .hcmd _ (.read _) => "hread" | .hcmd _ (.write _) => "hwrite" | .hcmd _ _ => "hfin"
+        | .hcmd _ (.read _) => "hread" | .hcmd _ (.write _) => "hwrite" | .hcmd _ _ => "hfin" | .graceful => "graceful"
       let outs := (r.1.flatMap id).map fun o => match o with
         | .rst _ c => s!"rst{c}" | .goaway _ c => s!"goaway{c}" | .ping _ => "echo" | .wu 0 _ => "wuconn"
-        | .wu _ _ => "wustream" | .reply .. => "reply" | .data _ 0 _ => "datafin" | .data .. => "dataout"
+        | .wu _ _ => "wustream" | .read .. => "consumed" | .reply .. => "reply" | .data _ 0 _ => "datafin" | .data .. => "dataout"
       let verdict :=
         -- a crash or a hang on individually legal frames is a failure whatever the model predicts
         if panicked then "FAIL:server-panic"
